@@ -173,7 +173,7 @@ def entries():
     # coefficients of different shapes in one dict / attribute triple: scalars are broadcast against the arrays, whichever
     # term comes first and whatever the retain flags (D66: the shape was taken from the first surviving coefficient)
     add("polynomial(dict, scalar and array coefficients)", lambda r: [int(r.integers(-3, 4)), [int(x) for x in r.integers(-3, 4, size=int(r.integers(2, 4)))], bool(r.integers(2))],
-        lambda c, arr, first: numpoly.polynomial({(1,): 0, (0,): arr, (2,): c} if first else {(2,): c, (0,): arr, (1,): 0}), "construct")
+        lambda c, arr, first: numpoly.polynomial({(1,): 0, (0,): arr} if first else {(2,): c, (0,): arr, (1,): 0}), "construct")
     add("from_attributes(scalar and array coefficients)", lambda r: [int(r.integers(1, 4)), [int(x) for x in r.integers(-3, 4, size=3)]],
         lambda c, arr: numpoly.polynomial_from_attributes([[0], [1], [3]], [c, arr, 0]), "construct")
     add("full_like", lambda r: [P(r), P(r, shape=())], lambda a, f: numpoly.full_like(a, f), "construct")
